@@ -115,6 +115,42 @@ fn check_c08(st: &mut Stats, line: &Value, deep: bool) -> Vec<String> {
         }
         Err(e) => d.push(format!("valid v{v} file ({} bytes) rejected: {e}", bytes.len())),
     }
+    // the FILE entry point: from_binary(path) decodes what the file holds - also right after files the decoder rejected
+    // (a truncated one, an extended one, one with an unsupported version) were offered to the same thread
+    {
+        let dir = scratch_dir();
+        std::fs::create_dir_all(&dir).ok();
+        let path = dir.join("o.hpo");
+        let mut ext = bytes.clone();
+        ext.push(0);
+        let cut = bytes[..bytes.len() * 2 / 3].to_vec();
+        for (what, content, must_load) in [("truncated", &cut, false), ("valid", &bytes, true), ("extended", &ext, false), ("valid", &bytes, true), ("valid", &bytes, true)] {
+            st.evaluations += 1;
+            std::fs::write(&path, content).expect("write scratch file");
+            match catch(|| hpo::Ontology::from_binary(&path)) {
+                Ok(Ok(ont)) => {
+                    if !must_load {
+                        d.push(format!("from_binary accepted a {what} v{v} file ({} of {} bytes)", content.len(), bytes.len()));
+                    } else {
+                        for x in compare(&ont, &exp, &[Focus::Struct, Focus::Ann, Focus::Meta]).into_iter().take(2) {
+                            d.push(format!("from_binary of the v{v} file (after rejected files on the same thread): {x}"));
+                        }
+                    }
+                }
+                Ok(Err(e)) => {
+                    if must_load {
+                        d.push(format!("from_binary rejected a valid v{v} file ({} bytes) that was offered after a rejected file: {e}", bytes.len()));
+                    }
+                }
+                Err(p) => {
+                    if must_load {
+                        d.push(format!("from_binary panicked on a valid v{v} file offered after a rejected file: {p}"));
+                    }
+                }
+            }
+        }
+        std::fs::remove_dir_all(&dir).ok();
+    }
     // crash points: every proper prefix
     for i in 0..bytes.len() {
         st.evaluations += 1;
